@@ -109,7 +109,7 @@ PROPS = {
         ],
     },
     "C06": {
-        "units": ["prove", "commit", "ctors", "transcripts"],
+        "units": ["prove", "commit", "ctors", "transcripts", "prove_wrapper"],
         "design_ref": "DESIGN.md section 7, C06",
         "technique": "contract-based deductive verification (Verus) of the real prove_with_rng and PedersenGens::commit; iff-contract between Ok and the witness-validity predicate, every `?` exit discharged",
         "claim": "prove_with_rng is proved, for all statements built through the validating constructors and all witnesses built through RangeWitness::init, to return Ok only if "
@@ -169,7 +169,7 @@ PROPS = {
         "assumptions": ["binding of the proof to the promise vector is by the transcript (random oracle), not a deductive fact"],
     },
     "C08": {
-        "units": ["verify", "verify_rel", "transcripts", "nonce"],
+        "units": ["verify", "verify_rel", "transcripts", "nonce", "nullrng"],
         "design_ref": "DESIGN.md section 7, C08",
         "technique": "contract-based deductive verification (Verus): ghost model of merlin's transcript RNG (key = log, witness rekeys, external draw); weight provenance as loop invariants of the real verify()",
         "claim": "Proved on the real verify(): for every proof p of a chunk the responses r1, s1 and every d1_k are absorbed into transcript p, an RNG keyed by that complete log yields one "
@@ -223,7 +223,7 @@ PROPS = {
     },
     "C01": {
         "alias_tags": {"verify_rel": ["C02"], "verify": ["C04", "C05"], "prove": ["C04", "C06"], "transcripts": ["C04"], "gens_new": ["C11", "C12"], "nonce": ["C09"]},
-        "units": ["prove", "prove_msg", "verify", "verify_rel", "transcripts", "ctors", "commit", "gens_new", "nonce"],
+        "units": ["prove", "prove_msg", "verify", "verify_rel", "transcripts", "ctors", "commit", "gens_new", "nonce", "prove_wrapper"],
         "design_ref": "DESIGN.md section 7, C01",
         "technique": "contract-based deductive verification (Verus): prover totality on valid witnesses, output shape agreement with the verifier's shape checks, shared padding contract; the algebraic completeness of the folding argument is explicitly undecided",
         "claim": "Decided part: for every statement built through the validating constructors and every valid witness, prove_with_rng returns a proof unless the transcript rejects "
@@ -296,3 +296,9 @@ _REFUSALS = PROPS["C10"].pop("claim_refusals")
 PROPS["C10"]["claim"] += " " + _REFUSALS
 PROPS["C03"]["claim"] += " " + _REFUSALS
 PROPS["C01"]["claim"] += " Verifier side of completeness at code level: " + _REFUSALS
+
+PROPS["C06"]["claim"] += " The `prove` entry point (feature rand) is under contract too (unit prove_wrapper): it is proved to return exactly what prove_with_rng's contract allows for the caller's own transcript, statement and witness."
+
+PROPS["C08"]["claim"] += ' NullRng, the generator handed to merlin when the weight RNG is built, is under contract (unit nullrng): fill_bytes / try_fill_bytes overwrite the whole buffer with zeros, so the weights are a function of the transcripts only.'
+
+PROPS["C11"]["claim"] += ' BulletproofGens::clone (a hand-written Clone impl) is proved to return the same capacities, tables with the same content and the same precomputation.'
